@@ -144,6 +144,7 @@ type Machine struct {
 	onPending    func([]Dec)
 	inIntrinsic  *ssa.Function
 	decided      map[*sym.Term]bool
+	builders     map[*Value]Value // strings.Builder contents
 	traceChans   map[*Chan]bool   // shared objects in thread-trace mode: operations are recorded, not executed
 	traceMutex   map[*Value]bool
 	SyncTrace    []string
@@ -162,6 +163,10 @@ type Machine struct {
 	mapOrderRev  bool
 	idN          int
 	extTypeTab   map[string]types.Type
+	merge        *mergeScope // innermost merge scope (merge.go)
+	Merged       int
+	NoMerge      bool
+	MergeAborts  int
 }
 
 type hashApp struct {
@@ -197,6 +202,9 @@ func (m *Machine) tracef(format string, a ...interface{}) {
 func (m *Machine) assertPC(t *sym.Term) {
 	if t.IsTrue() {
 		return
+	}
+	if m.merge != nil {
+		panic(mergeAbort{"path condition changed inside a merge scope"})
 	}
 	m.pc = append(m.pc, t)
 	m.S.Assert(t)
@@ -248,6 +256,9 @@ func (m *Machine) Decide(cond *sym.Term) bool {
 	}
 	if v, ok := m.decided[cond]; ok {
 		return v
+	}
+	if m.merge != nil {
+		return m.mergeDecide(cond)
 	}
 	idx := len(m.decisions)
 	var val bool
